@@ -12,7 +12,12 @@ MANIFEST = {
              "value, by induction on the type tree (C11_representations_decode_fitting; map destinations and UDT-by-name destinations only by correspondence). It is tied to "
              "the code Go value by Go value incl. destination reuse, and exercised by directed search on the implementation - every (type, accepted representation, boundary value) and seeded type trees up to depth 4 are "
              "round-tripped through the public Codec API into the same representation and into an untyped destination (preferred Go type), and the model decoder is "
-             "compared with the real decoder on the real encoder's bytes inside coqc."),
+             "compared with the real decoder on the real encoder's bytes inside coqc. Floats: every accepted Go representation of CQL float (float32, float64) and "
+             "double (float64, float32, *big.Float), value and pointer form, sees NaN (quiet, with payload, negative, signalling where the representation keeps it), "
+             "+-Inf, +-0, subnormals; equality is 'same bits or both NaN'. An Encode error for an accepted representation of a representable value is a finding. Every "
+             "container value is also decoded into an alternate typed destination (maps keyed by interface{}, untyped containers, array / struct / pointer keys): ok or "
+             "error, never a panic (C11_typed_decode_no_panic: forall destination type, pre-filled content and bytes), compared with the model. Destination reuse "
+             "(a variable already holding another value, e.g. non-NULL where the decoded value has a NULL) is judged for every container representation."),
     "technique": "Rocq proof over a hand-written model + model/code correspondence + directed round trips through the public Codec API",
     "design_ref": "3 C11, 8.4",
     "note": ("Partial in one respect: the representation-level decode theorem covers leaf, slice, array, interface{}, tuple-struct and positional UDT destinations; map and "
